@@ -120,7 +120,7 @@ DoReduce == /\ Ev("R") /\ phase = "run"
           /\ UNCHANGED <<phase, cs, variant, input, la, laval, fetched, outc, ref, prev, eref>>
 
 \* lines this specification does not interpret (trace output, stray prints)
-Skip == /\ (Ev("other") \/ Ev("shift") \/ Ev("reduce")) /\ phase = "run"
+Skip == /\ (Ev("other") \/ Ev("shift") \/ Ev("reduce") \/ Ev("nest")) /\ phase = "run"
         /\ UNCHANGED <<phase, run, outc, ref, prev, eref>>
 
 EndRun == /\ Ev("end") /\ phase = "run"
